@@ -465,3 +465,24 @@ def loop_header(fn, loop):
     if s["k"] == "rangefor":
         parts.append("range " + fn.text(s["range"]))
     return " ; ".join(parts)
+
+
+def shared_fields_rule(ctx, LA, classes, roots, self_concurrent=(), floor=1, audited=None):
+    """Generic lockset rule: every non-atomic field of `classes` that is accessed from two threads
+    (thread = reachability from `roots`, rest = 'main') with a write outside construction/destruction
+    has one mutex held at all its accesses.  `audited` = {field qname: reason} exceptions."""
+    from ..lockset import shared_field_audit
+    audited = audited or {}
+    n = 0
+    for fq, verdict, detail, wit in shared_field_audit(ctx.prog, ctx.cg, LA, classes, roots, self_concurrent=self_concurrent):
+        if verdict == "broken":
+            ctx.broken("shared-field-audit:" + fq, "anchor", "-", detail)
+            continue
+        n += 1
+        if fq in audited:
+            ctx.ok("shared-field:" + fq.split("::", 1)[-1], "lockset(all shared fields)", "-", "audited: " + audited[fq])
+            continue
+        ctx.check(verdict == "ok", "shared-field:" + fq.split("::", 1)[-1], "lockset(all shared fields)", wit[0].split(" at ")[-1].split(" ")[0] if wit else "-",
+                  fq.split("::")[-1] + " is " + detail, fq + " is " + detail + " (data race)", wit)
+    ctx.counters["shared_fields_audited"] = n
+    ctx.floor("shared_fields_audited", floor, "fields found to be shared between threads")
